@@ -1364,6 +1364,8 @@ Qed.
 (* ------------------------------------------------------------------------------------------ *)
 (** * the arithmetic counters are the counters of the emitted token list *)
 
+Local Arguments N.add : simpl never.
+
 Definition cnt3 (ts : list tok) : c3 := (count_tok is_sel ts, count_tok is_l ts, count_tok is_r ts).
 
 Lemma c3_ext : forall a b : c3, sel3 a = sel3 b -> lp3 a = lp3 b -> rp3 a = rp3 b -> a = b.
@@ -1403,7 +1405,7 @@ Proof.
     { unfold B, Bc. rewrite cnt3_concat, !map_map. apply c3_sum_ext. intros x Hx. rewrite Forall_forall in IH. apply (IH x Hx key). }
     assert (Hbody : cnt3 (sub_body parent key A B) = c3_add (1, 1, 1)%N (c3_add Ac Bc)).
     { unfold sub_body. rewrite !cnt3_app, HA, HB.
-      destruct Ac as [[a1 a2] a3], Bc as [[b1 b2] b3]. cbn. Show. f_equal; [f_equal|]; lia. }
+      destruct Ac as [[a1 a2] a3], Bc as [[b1 b2] b3]. cbn. f_equal; [f_equal|]; lia. }
     cbn [fst snd]. split.
     + destruct arr; rewrite !cnt3_app, Hbody; destruct (c3_add (1, 1, 1)%N (c3_add Ac Bc)) as [[x1 x2] x3]; cbn; f_equal; [f_equal| |f_equal|]; lia.
     + destruct nl; [reflexivity|]. rewrite !cnt3_app, Hbody. destruct (c3_add (1, 1, 1)%N (c3_add Ac Bc)) as [[x1 x2] x3]. cbn. f_equal; [f_equal|]; lia.
